@@ -20,7 +20,9 @@ func (a Addr) String() string  { return string(a) }
 
 // WriteRec is one Write call of the client.
 type WriteRec struct {
-	Data      []byte
+	Seq       int    // global order among writes and other recorded calls
+	Attempt   []byte // what the caller tried to write
+	Data      []byte // what was accepted
 	At        time.Time
 	Err       error
 	AfterStop bool // issued after Close
@@ -28,8 +30,9 @@ type WriteRec struct {
 
 // Call is one recorded method call on the connection (for "no further call").
 type Call struct {
-	Op string
-	At time.Time
+	Seq int
+	Op  string
+	At  time.Time
 }
 
 type Conn struct {
@@ -59,6 +62,8 @@ type Conn struct {
 	// StallReads makes Read block even when data is queued (used by faults).
 	readsAfterClose int
 	timeouts        int
+	cut             bool
+	seq             int
 }
 
 // ReadTimeouts returns how many reads ended with a deadline expiry.
@@ -78,13 +83,17 @@ func (c *Conn) signal() {
 }
 
 func (c *Conn) note(op string) {
-	c.Calls = append(c.Calls, Call{Op: op, At: time.Now()})
+	c.seq++
+	c.Calls = append(c.Calls, Call{Seq: c.seq, Op: op, At: time.Now()})
 }
 
 // Deliver queues bytes from the server, in the given segments (nil = one).
 func (c *Conn) Deliver(b []byte, segs []int) {
 	c.mu.Lock()
 	defer c.mu.Unlock()
+	if c.cut {
+		return
+	}
 	rest := b
 	for _, s := range segs {
 		if s <= 0 || len(rest) == 0 {
@@ -106,6 +115,16 @@ func (c *Conn) Deliver(b []byte, segs []int) {
 func (c *Conn) FailReads(err error) {
 	c.mu.Lock()
 	c.rerr = err
+	c.signal()
+	c.mu.Unlock()
+}
+
+// CutReads drops everything queued and makes reads fail with err from now on.
+func (c *Conn) CutReads(err error) {
+	c.mu.Lock()
+	c.rq = nil
+	c.rerr = err
+	c.cut = true
 	c.signal()
 	c.mu.Unlock()
 }
@@ -187,7 +206,8 @@ func (c *Conn) Read(p []byte) (int, error) {
 func (c *Conn) Write(p []byte) (int, error) {
 	c.gate("write")
 	c.mu.Lock()
-	rec := WriteRec{Data: append([]byte(nil), p...), At: time.Now()}
+	c.seq++
+	rec := WriteRec{Seq: c.seq, Data: append([]byte(nil), p...), Attempt: append([]byte(nil), p...), At: time.Now()}
 	if c.closed {
 		rec.AfterStop = true
 		rec.Err = net.ErrClosed
@@ -225,7 +245,8 @@ func (c *Conn) Write(p []byte) (int, error) {
 }
 
 func (c *Conn) Close() error {
-	c.gate("close")
+	// No gate here: ch.Client.Close calls conn.Close while holding its mutex, and a goroutine
+	// waiting for that mutex is not durably blocked, so synctest.Wait would never return.
 	c.mu.Lock()
 	defer c.mu.Unlock()
 	c.CloseCalls++
